@@ -53,8 +53,10 @@ def mk (neg : Bool) (m e : Nat) : F64 :=
   if e > maxE then inf neg else finite neg m e
 
 /-- Round-to-nearest-even of `N / D` scaled units (`D > 0`) with sign flag `neg` (also used for a
-zero result).  Overflows to `inf neg`. -/
-def ofScaled (neg : Bool) (N D : Nat) : F64 :=
+zero result).  Overflows to `inf neg`.
+(Irreducible: proofs use its characterisation in `Proofs/F64Lemmas.lean`, and the elaborator must
+never try to evaluate it on symbolic arguments; use `decide +kernel`/`unfold` to compute with it.) -/
+@[irreducible] def ofScaled (neg : Bool) (N D : Nat) : F64 :=
   let j := expo N D
   let m := rneDiv N (D * 2 ^ j)
   if m = 2 ^ 53 then mk neg (2 ^ 52) (j + 1) else mk neg m j
@@ -90,13 +92,20 @@ def isZero : F64 → Bool
   | finite _ m _ => m = 0
   | _ => false
 
-/-- canonical form of finite values; `inf` and `nan` are always canonical -/
-def WF : F64 → Prop
-  | finite _ m e => m < 2 ^ 53 ∧ e ≤ maxE ∧ (2 ^ 52 ≤ m ∨ e = 0)
-  | _ => True
+/-- canonical form, as a Boolean test -/
+def isWF : F64 → Bool
+  | finite _ m e => decide (m < 2 ^ 53) && decide (e ≤ maxE) && (decide (2 ^ 52 ≤ m) || decide (e = 0))
+  | _ => true
 
-instance : DecidablePred WF := fun x => by
-  cases x <;> unfold WF <;> infer_instance
+/-- canonical form of finite values; `inf` and `nan` are always canonical.  (Stated through the
+Boolean test so that it never unfolds into the operation it is applied to.) -/
+def WF (x : F64) : Prop := x.isWF = true
+
+instance : DecidablePred WF := fun x => inferInstanceAs (Decidable (x.isWF = true))
+
+theorem wf_finite_iff (s : Bool) (m e : Nat) :
+    WF (finite s m e) ↔ m < 2 ^ 53 ∧ e ≤ maxE ∧ (2 ^ 52 ≤ m ∨ e = 0) := by
+  simp [WF, isWF, and_assoc]
 
 def ofBits (b : UInt64) : F64 :=
   let neg := (b >>> 63) != 0
@@ -242,14 +251,12 @@ def geInt (x : F64) (i : Int) : Bool := cmpInt x i == some .gt || cmpInt x i == 
 
 /-! ## Conversions -/
 
+/-- `float(i)` with overflow to ±inf (this is C's `(double)long` for ints that fit a `long`) -/
+def ofIntD (i : Int) : F64 := ofScaled (decide (i < 0)) (i.natAbs * one) 1
+
 /-- Python `float(i)`: correctly rounded (half-even); `none` is `OverflowError`. -/
 def ofInt (i : Int) : Option F64 :=
-  match ofScaled (decide (i < 0)) (i.natAbs * one) 1 with
-  | inf _ => none
-  | r => some r
-
-/-- `float(i)` for ints that are known to fit (used for C `(double)long`): overflow gives inf -/
-def ofIntD (i : Int) : F64 := ofScaled (decide (i < 0)) (i.natAbs * one) 1
+  if (ofIntD i).isInf then none else some (ofIntD i)
 
 /-- Correctly rounded value of `±mant·10^exp10` (numeric core of `float("…")`): overflow gives
 `±inf`, underflow `±0`/subnormal; the sign flag survives on zero. -/
@@ -327,7 +334,7 @@ def sumFinish (f c : F64) : F64 :=
 
 def sumLoop (f c : F64) : List F64 → F64
   | [] => sumFinish f c
-  | x :: xs => let (t, c') := sumStep f c x; sumLoop t c' xs
+  | x :: xs => sumLoop (sumStep f c x).1 (sumStep f c x).2 xs
 
 /-- `sum(xs, start)` for a float `start` and exact floats `xs` -/
 def pySumFrom (start : F64) (xs : List F64) : F64 := sumLoop start zero xs
@@ -347,17 +354,14 @@ def fitsLong (i : Int) : Bool := -(2 ^ 63 : Int) ≤ i && i < (2 ^ 63 : Int)
 def sumGeneric (f : F64) : List (Sum Int F64) → Option F64
   | [] => some f
   | .inr x :: xs => sumGeneric (add f x) xs
-  | .inl i :: xs =>
-    match ofInt i with
-    | none => none
-    | some x => sumGeneric (add f x) xs
+  | .inl i :: xs => (ofInt i).bind fun x => sumGeneric (add f x) xs
 
 /-- the float loop with ints mixed in: ints that fit a C long are added uncompensated
 (`f_result += (double)value`); a bigger int ends the fast path (the compensation is folded in
 first) and the rest is summed by `sumGeneric`. -/
 def sumMixedLoop (f c : F64) : List (Sum Int F64) → Option F64
   | [] => some (sumFinish f c)
-  | .inr x :: xs => let (t, c') := sumStep f c x; sumMixedLoop t c' xs
+  | .inr x :: xs => sumMixedLoop (sumStep f c x).1 (sumStep f c x).2 xs
   | .inl i :: xs =>
     if fitsLong i then sumMixedLoop (add f (ofIntD i)) c xs
     else sumGeneric (sumFinish f c) (.inl i :: xs)
